@@ -307,7 +307,7 @@ func (c13) Expand(pj json.RawMessage) []json.RawMessage {
 		case "openat":
 			add([]simunix.Fault{{At: rec.N, Kind: "errno", Errno: int(simunix.EACCES)}})
 			add([]simunix.Fault{{At: rec.N, Kind: "errno", Errno: int(simunix.ENOSPC)}})
-		case "write":
+		case "write", "pwrite":
 			add([]simunix.Fault{{At: rec.N, Kind: "errno", Errno: int(simunix.EIO)}})
 			add([]simunix.Fault{{At: rec.N, Kind: "errno", Errno: int(simunix.ENOSPC)}})
 			add([]simunix.Fault{{At: rec.N, Kind: "short", Short: 1}})
